@@ -7,8 +7,9 @@ import os
 import time
 
 VERIF = os.path.dirname(os.path.dirname(os.path.abspath(__file__)))
-EVIDENCE_DIR = os.path.join(VERIF, "evidence")
-REPLAY_DIR = os.path.join(VERIF, "replays")
+_OUT = os.environ.get("VERIF_OUT") or VERIF  # VERIF_OUT: scratch output dir used when running against mutants
+EVIDENCE_DIR = os.path.join(_OUT, "evidence")
+REPLAY_DIR = os.path.join(_OUT, "replays")
 KNOWN_FINDINGS = os.path.join(VERIF, "known_findings.json")
 
 EXIT_OK = 0
@@ -72,6 +73,7 @@ def finish(prop_id, tier, seed, results, queries, t_start, extra_assumptions=(),
     samples = []
     replay_n = [0]
     printed_known = set()
+    per_key = {}
 
     def report_violation(key, what, payload):
         nonlocal n_viol, n_known
@@ -82,11 +84,14 @@ def finish(prop_id, tier, seed, results, queries, t_start, extra_assumptions=(),
                     printed_known.add(key)
                     print("KNOWN-FINDING: property=%s %s" % (prop_id, e.get("what", key)))
                 return
+        n_viol += 1
+        per_key[key] = per_key.get(key, 0) + 1
+        if per_key[key] > 3 or replay_n[0] >= 12:
+            return  # counted, but do not flood the output: at most 3 replay files per key, 12 per run
         replay_n[0] += 1
         path = os.path.join(REPLAY_DIR, "%s-%d.json" % (prop_id, replay_n[0]))
         with open(path, "w") as f:
             json.dump(dict(property=prop_id, key=key, what=what, **payload), f, indent=1, sort_keys=True, default=repr)
-        n_viol += 1
         print("VIOLATION property=%s replay=%s" % (prop_id, path))
         print("  key=%s :: %s" % (key, what[:400]))
 
